@@ -31,18 +31,19 @@ ASSUMPTIONS = [
     "engine agreement and cache-deserialiser integrity are NOT proved (C++ engine): differential / fault enumeration only",
 ]
 KNOWN = "hs-multibyte-neighbour"
+KNOWN_SEP = "hs-ascii-separator"      # U+001C..U+001F: \\s for Python, not for Hyperscan
 
 PRE = """From EV Require Import Base.Str Base.Corr Model.Hyperscan.
 Open Scope N_scope.
-Definition rm_of (tbl : list (nat * (nat * nat) * option (nat * nat))) (i : nat) (_ : str) (s e : nat) : option (nat * nat) :=
-  match find (fun r => Nat.eqb (fst (fst r)) i && Nat.eqb (fst (snd (fst r))) s && Nat.eqb (snd (snd (fst r))) e) tbl with
+Definition rm_of (tbl : list (nat * nat * option (nat * nat))) (i : nat) (_ : str) (s : nat) : option (nat * nat) :=
+  match find (fun r => Nat.eqb (fst (fst r)) i && Nat.eqb (snd (fst r)) s) tbl with
   | Some r => snd r | None => None end.
-Definition run_hs (c : list (nat * (nat * nat) * option (nat * nat)) * str * list hit) : list (nat * nat * nat * str) :=
+Definition run_hs (c : list (nat * nat * option (nat * nat)) * str * list hit) : list (nat * nat * nat * str) :=
   match c with (tbl, text, hits) =>
     map (fun t => (h_idx t, h_start t, h_end t, h_data t)) (extract (rm_of tbl) text hits) end.
 Definition hs_eqb := list_eqb (pair_eqb (pair_eqb (pair_eqb Nat.eqb Nat.eqb) Nat.eqb) str_eqb).
 """
-TY = ("list (nat * (nat * nat) * option (nat * nat)) * str * list hit", "list (nat * nat * nat * str)")
+TY = ("list (nat * nat * option (nat * nat)) * str * list hit", "list (nat * nat * nat * str)")
 
 
 class StubDB:
@@ -94,15 +95,14 @@ def hs_offsets(ctx):
             for t in toks:
                 if not (0 <= t.start <= t.end <= len(text)) or text[t.start:t.end] != t.data:
                     ctx.violation(None, "a reported token does not index its own text", dict(stream="hs-offsets", text=text, hits=hits))
-            # model inputs: in-place re-match table for every (idx, start, end) the model may ask
+            # model inputs: in-place re-match table for every (idx, start) the model may ask
             tbl = {}
             for i, e in enumerate(exts):
                 for s in range(len(text) + 1):
-                    for en in range(s, len(text) + 1):
-                        m = e.compiled_regex.match(text, s, en)
-                        tbl[(i, s, en)] = None if m is None else m.span(1)
-            tt = "[" + "; ".join(f"({i}%nat, ({s_}%nat, {e_}%nat), " + ("None" if v is None else f"Some ({v[0]}%nat, {v[1]}%nat)") + ")"
-                                 for (i, s_, e_), v in tbl.items()) + "]"
+                    m = e.compiled_regex.match(text, s)
+                    tbl[(i, s)] = None if m is None else m.span(1)
+            tt = "[" + "; ".join(f"({i}%nat, {s_}%nat, " + ("None" if v is None else f"Some ({v[0]}%nat, {v[1]}%nat)") + ")"
+                                 for (i, s_), v in tbl.items()) + "]"
             ht = "[" + "; ".join(f"({i}%nat, ({bs}%nat, {be}%nat))" for i, bs, be in hits) + "]"
             # extractor index of each yielded token: tokens are yielded in hit order
             b2c = {}
@@ -113,7 +113,7 @@ def hs_offsets(ctx):
             b2c[pos_] = len(text)
             idxs = []
             for i, bs, be in hits:
-                if bs in b2c and be in b2c and exts[i].compiled_regex.match(text, b2c[bs], b2c[be]):
+                if bs in b2c and be in b2c and exts[i].compiled_regex.match(text, b2c[bs]):
                     idxs.append(i)
             if len(idxs) != len(toks):
                 ctx.violation(None, "a hit is kept although an end is inside a character, or dropped although both ends are boundaries",
@@ -140,7 +140,11 @@ def engine(ctx):
             "Id. at 5” and “supra, at 6",
             # D19: the re-match on a slice let `^` match at the slice start, so the optional blank of the
             # volume-less nominative patterns swallowed the boundary character
-            "100 Holmes, at 99", "x Holmes, at 99", "100 Holmes, 99", "See Cooke, 515 and 3 Chase 4"]
+            "100 Holmes, at 99", "x Holmes, at 99", "100 Holmes, 99", "See Cooke, 515 and 3 Chase 4",
+            # D21: the re-match was cut at the end Hyperscan reported, where `$` and optional tails match artificially
+            "1 U.S. __x", "See 12 F.3d ___a and 1 U.S. _b", "Pub. L. 111-148, §§ 5", "x§y§z 1 U.S. 1\n",
+            # the ASCII information separators are whitespace for Python's \s but not for Hyperscan (known finding)
+            "foo\x1cid.\x1c bar", "foo\x1fsupra\x1f bar", "a\x1d1 U.S. 1\x1e b"]
     from eyecite.tokenizers import AhocorasickTokenizer
     ac_sel = AhocorasickTokenizer()
     for _ in range(200 if th else 30):
@@ -175,7 +179,8 @@ def engine(ctx):
                 # classify: candidate whose boundary character (before group 1 or after it) is non-ASCII
                 before = d[t.start - 1] if t.start > 0 else "a"
                 after = d[t.end] if t.end < len(d) else "a"
-                shape = KNOWN if (ord(before) > 127 or ord(after) > 127) else None
+                shape = KNOWN if (ord(before) > 127 or ord(after) > 127) else (
+                    KNOWN_SEP if (before in "\x1c\x1d\x1e\x1f" or after in "\x1c\x1d\x1e\x1f") else None)
                 ctx.violation(shape, f"Hyperscan misses the reference candidate {t.data!r} at {(t.start, t.end)}", dict(stream="engine", text=d))
                 break
         for t in a:
@@ -189,20 +194,12 @@ def engine(ctx):
             for t in extras[:6]:
                 genuine = False
                 for e in sel:
-                    # Hyperscan reports every end offset at which the pattern matches, not only the one Python's
-                    # greedy search prefers: genuineness is membership of text[s0:e0] in the pattern's language with
-                    # group 1 at the token's offsets, a closing `$` alternative being allowed only at the real end
-                    closes = e.regex.endswith("|$)")
+                    # as repaired (D21) the token is what the Python pattern matches from the hit's start in the real
+                    # text: genuineness = some extractor's pattern matches there with group 1 at the token's offsets
                     for s0 in range(max(0, t.start - 2), t.start + 1):
-                        for e0 in (t.end, t.end + 1):
-                            if e0 > len(d):
-                                continue
-                            m = e.compiled_regex.match(d, s0, e0)
-                            if (m and m.end() == e0 and m.span(1) == (t.start, t.end) and m.groupdict() == t.groups
-                                    and (e0 == len(d) or e0 > t.end or not closes)):
-                                genuine = True
-                                break
-                        if genuine:
+                        m = e.compiled_regex.match(d, s0)
+                        if m and m.span(1) == (t.start, t.end) and m.groupdict() == t.groups:
+                            genuine = True
                             break
                     if genuine:
                         break
@@ -289,7 +286,51 @@ def cache_faults(ctx):
     ctx.streams.append("cache")
 
 
+def cold_start(ctx):
+    """a second thread uses a fresh tokenizer while the first one is still compiling the database (no cache):
+    it must get the reference tokens, not an error from a half-initialised database"""
+    import threading
+    import time
+
+    from eyecite.tokenizers import EXTRACTORS, HyperscanTokenizer, Tokenizer
+
+    exts = EXTRACTORS[:900] + EXTRACTORS[-5:]
+    probe = "See Foo v. Bar, 1 Ala. 1, 3 (1990). Id. at 4."
+    want = sorted({(type(t).__name__, t.start, t.end) for t in Tokenizer(extractors=exts).extract_tokens(probe)})
+    for delay in (0.05, 0.3, 0.8):
+        tk = HyperscanTokenizer(extractors=exts)
+        res = {}
+
+        def first():
+            try:
+                tk.hyperscan_db
+                res["a"] = "ok"
+            except Exception as e:  # noqa
+                res["a"] = type(e).__name__
+
+        def second():
+            time.sleep(delay)
+            try:
+                res["b"] = sorted({(type(t).__name__, t.start, t.end) for t in tk.extract_tokens(probe)})
+            except Exception as e:  # noqa
+                res["b"] = type(e).__name__
+
+        ths = [threading.Thread(target=first), threading.Thread(target=second)]
+        for t in ths:
+            t.start()
+        for t in ths:
+            t.join()
+        ctx.case("cold-start", delay, True, None)
+        ctx.count("cold start: second thread during the first compilation")
+        if res.get("a") != "ok" or res.get("b") != want:
+            ctx.violation(None, f"a thread using the tokenizer while another one is still compiling its database got {str(res.get('b'))[:120]} "
+                                f"(compiling thread: {res.get('a')})", dict(stream="cold-start", delay=delay, text=probe))
+            break
+    ctx.streams.append("cold-start")
+
+
 def run(ctx):
     hs_offsets(ctx)
+    cold_start(ctx)
     engine(ctx)
     cache_faults(ctx)
